@@ -34,17 +34,22 @@ def setup():
     CR.setup_pipeline()
 
 
-def gen(c, k, labels, nkinds=3, with_fm=False, attrs=False):
+def gen(c, k, labels, nkinds=3, with_fm=False, attrs=False, kindset=None, tail=()):
     items = []
     kept_flags, defined = [], set()
     for i in range(k):
-        kind = c.choose(nkinds)  # 0 ref, 1 def, 2 def in quote, 3 def written inside the body of the preceding definition, 4 a heading whose title equals a (non-numeric) label
+        kind = kindset[c.choose(len(kindset))] if kindset else c.choose(nkinds)  # (5: a reference inside the body of a {note} directive)  # 0 ref, 1 def, 2 def in quote, 3 def written inside the body of the preceding definition, 4 a heading whose title equals a (non-numeric) label
         lab = c.pick(labels)
         # nesting only under a definition that is itself kept (the body of a dropped duplicate is dropped with it: outside the claim)
         if kind == 3 and not (items and items[-1][0] in (1, 3) and kept_flags[-1]):
             kind = 1
         if kind == 4 and lab.isdigit():
             kind = 0
+        kept_flags.append(kind in (1, 2, 3) and lab not in defined)
+        if kind in (1, 2, 3):
+            defined.add(lab)
+        items.append((kind, lab))
+    for kind, lab in tail:  # items every document of the family ends with (definitions)
         kept_flags.append(kind in (1, 2, 3) and lab not in defined)
         if kind in (1, 2, 3):
             defined.add(lab)
@@ -64,6 +69,8 @@ def gen(c, k, labels, nkinds=3, with_fm=False, attrs=False):
         depth = 0
         if kind == 4:
             lines += ["# %s" % lab, ""]
+        elif kind == 5:
+            lines += ["```{note}", "R%d text[^%s] more" % (i, lab), "```", ""]
         elif kind == 0:
             # (with attrs_inline enabled, '{...}' after a reference must not turn '[^a]' into a bracketed span)
             lines += ["R%d text[^%s]%s more" % (i, lab, ["", "{.cls}", "{#i%d}" % i, "{}"][c.choose(4)] if attrs else ""), ""]
@@ -118,7 +125,7 @@ def check(doc, warn, spec):
                 kept[lab] = i
     refs_by_label = {}
     for i, (kind, lab) in enumerate(items):
-        if kind == 0:
+        if kind in (0, 5):
             refs_by_label.setdefault(lab, []).append(i)
     fns = list(doc.findall(nodes.footnote))
     by_marker = {}
@@ -166,7 +173,7 @@ def check(doc, warn, spec):
     for r in doc.findall(nodes.footnote_reference):
         par = r.parent.astext()
         for i, (kind, lab) in enumerate(items):
-            if kind == 0 and par.startswith("R%d " % i):
+            if kind in (0, 5) and par.startswith("R%d " % i):
                 refnodes[i] = r
     for lab, idxs in refs_by_label.items():
         if lab not in kept:
@@ -221,7 +228,7 @@ def check(doc, warn, spec):
     return None
 
 
-def make(eng, k, labels, nkinds=3, with_fm=False, attrs=False):
+def make(eng, k, labels, nkinds=3, with_fm=False, attrs=False, kindset=None, tail=()):
     setup()
     c = CR.Choice(eng)
     state = {}
@@ -229,7 +236,7 @@ def make(eng, k, labels, nkinds=3, with_fm=False, attrs=False):
 
     def body():
         c.reset()
-        text, spec = gen(c, k, labels, nkinds, with_fm, attrs)
+        text, spec = gen(c, k, labels, nkinds, with_fm, attrs, kindset, tail)
         state["text"], state["spec"] = text, spec
         try:
             doc, warn = CR.publish(text, settings_for(spec))
@@ -241,7 +248,7 @@ def make(eng, k, labels, nkinds=3, with_fm=False, attrs=False):
         eng.passed(10)
         its = spec["items"]
         defs = {l for kd, l in its if kd in (1, 2, 3)}
-        if any(kd == 0 and l in defs for kd, l in its) and len(its) >= 3:
+        if any(kd in (0, 5) and l in defs for kd, l in its) and len(its) >= 3:
             eng.note("linked")
         return "ok"
 
@@ -260,6 +267,10 @@ def families(tier, seed):
                     args=dict(k=3, labels=["a", "b"], nkinds=5), nontrivial="linked", max_forks=400000))
     F.append(Family("arr/K3-attrs", make, "3 items (reference / definition) over labels ['a', '1'] with the attrs_inline extension enabled and every reference followed by nothing, '{.cls}', '{#id}' or '{}'",
                     args=dict(k=3, labels=["a", "1"], nkinds=2, attrs=True), nontrivial="linked", max_forks=400000))
+    F.append(Family("arr/K4-directive-refs", make, "4 items (reference / definition / reference inside the body of a {note} directive) over labels ['a', 'b']: numbering follows the document order of first references, wherever they are",
+                    args=dict(k=4, labels=["a", "b"], kindset=[0, 1, 5]), nontrivial="linked", max_forks=400000))
+    F.append(Family("arr/K4-directive-refs+defs", make, "4 references (in the running text or inside a {note} body) over labels ['a', 'b'], followed by both definitions: a label first referenced inside a directive body and again later is numbered by that first reference",
+                    args=dict(k=4, labels=["a", "b"], kindset=[0, 5], tail=((1, "a"), (1, "b"))), nontrivial="linked", max_forks=400000))
     F.append(Family("arr/K5-L2-flat", make, "all arrangements of 5 items (reference / definition) over labels ['a', 'b'] x both settings (repeated references between other labels' first references)",
                     args=dict(k=5, labels=["a", "b"], nkinds=2), nontrivial="linked", max_forks=400000))
     if not q:
